@@ -1402,6 +1402,10 @@ def rule_q(ctx: Ctx) -> None:
 
 
 LITERAL_TESTS = ("is_number", "is_int", "is_string")
+REVIEWED_TO_PY: dict[tuple[str, str], str] = {
+    ("sqlglot.generators.fabric:FabricGenerator.attimezone_sql", "precision_param.this.to_py()"):
+        "precision_param is found in the DataType that _cap_data_type_precision has just built, whose only parameter is exp.Literal.number(<int>)",
+}
 
 
 def _assertions_on_parse_results(tree: ast.AST) -> list[ast.Call]:
@@ -1411,7 +1415,7 @@ def _assertions_on_parse_results(tree: ast.AST) -> list[ast.Call]:
 def rule_r(ctx: Ctx) -> None:
     ctx.rule(
         "C05.r",
-        "conversions and assertions on parsed nodes are guarded: in the parser modules every `<node>.to_py()` runs under a literal test of the same node "
+        "conversions and assertions on parsed nodes are guarded: in the parser modules and in generator-time code (generators, dialect helpers, transforms) every `<node>.to_py()` runs under a literal test of the same node (enclosing test, `not <test> or ...`, or an earlier `if not <test>: ...; return`) "
         "(<node>.is_number / .is_int / .is_string / isinstance(<node>, exp.Literal), also as `all(isinstance(a, exp.Literal) for a in args)` for elements of args) or under "
         "try/except ValueError, and no `<node>.assert_is(<class>)` is applied to a node whose class depends on the input — to_py raises ValueError and assert_is AssertionError, "
         "neither belongs to the library's error family",
@@ -1420,9 +1424,11 @@ def rule_r(ctx: Ctx) -> None:
     ctx.require(len(_assertions_on_parse_results(ast.parse("q = self._parse_paren().assert_is(exp.Subquery)\n"))) == 1, "positive control failed: assert_is call not recognised")
     n = 0
     for m in repo.modules.values():
-        if not (m.name == "sqlglot.parser" or m.name.startswith("sqlglot.parsers.")):
+        parser_side = m.name == "sqlglot.parser" or m.name.startswith("sqlglot.parsers.")
+        generator_side = m.name == "sqlglot.generator" or m.name.startswith("sqlglot.generators.") or m.name in ("sqlglot.dialects.dialect", "sqlglot.transforms")
+        if not (parser_side or generator_side):
             continue
-        for c in _assertions_on_parse_results(m.tree):
+        for c in (_assertions_on_parse_results(m.tree) if parser_side else []):
             n += 1
             f = m.enclosing_func(c)
             where = f.key if f else m.name
@@ -1447,7 +1453,7 @@ def rule_r(ctx: Ctx) -> None:
                             from_args = v.args[0].id
             cur: ast.AST = c
             p_ = m.parent(cur)
-            while p_ is not None and (f is None or p_ is not f.node) and not ok:
+            while p_ is not None and (f is None or cur is not f.node) and not ok:
                 if isinstance(p_, ast.Try) and any(cur is x for x in p_.body) and _handlers_catch(p_, ("ValueError", "Exception")):
                     ok, why = True, "inside try/except ValueError"
                 tests: list[ast.AST] = []
@@ -1457,6 +1463,20 @@ def rule_r(ctx: Ctx) -> None:
                     tests.append(p_.test)
                 elif isinstance(p_, ast.BoolOp) and isinstance(p_.op, ast.And) and cur in p_.values:
                     tests.extend(p_.values[: p_.values.index(cur)])
+                elif isinstance(p_, ast.BoolOp) and isinstance(p_.op, ast.Or) and cur in p_.values:
+                    # `not X.is_int or X.to_py() > 1`: the conversion runs only when the negated test is false
+                    tests.extend(v.operand for v in p_.values[: p_.values.index(cur)] if isinstance(v, ast.UnaryOp) and isinstance(v.op, ast.Not))
+                # an earlier sibling `if <not literal>: ...; return` dominates the conversion
+                for fld in ("body", "orelse", "finalbody"):
+                    seq = getattr(p_, fld, None)
+                    if isinstance(seq, list) and cur in seq:
+                        for prev_st in seq[: seq.index(cur)]:
+                            if isinstance(prev_st, ast.If) and prev_st.body and isinstance(prev_st.body[-1], (ast.Return, ast.Raise, ast.Continue, ast.Break)):
+                                t0 = prev_st.test
+                                negs = [t0] if not (isinstance(t0, ast.BoolOp) and isinstance(t0.op, ast.Or)) else list(t0.values)
+                                for ng in negs:
+                                    if isinstance(ng, ast.UnaryOp) and isinstance(ng.op, ast.Not):
+                                        tests.append(ng.operand)
                 for t_ in tests:
                     txt = norm(t_, 400)
                     if any(f"{recv}.{k}" in txt for k in LITERAL_TESTS) or f"isinstance({recv}, exp.Literal)" in txt:
@@ -1467,6 +1487,8 @@ def rule_r(ctx: Ctx) -> None:
             inst = f"{where}|{norm(c, 60)}"
             if ok:
                 ctx.ok(inst, {"conversion": norm(c, 60), "in": where, "protected": why})
+            elif (where, norm(c, 60)) in REVIEWED_TO_PY:
+                ctx.ok(inst, {"conversion": norm(c, 60), "in": where, "reviewed": REVIEWED_TO_PY[(where, norm(c, 60))]})
             else:
                 ctx.fail(m, c, where, c, f"`{norm(c, 60)}` converts a parsed node without a literal test of `{recv}` or a ValueError handler: for a column, a parameter or a malformed number "
                                          f"the conversion leaks ValueError instead of a ParseError")
